@@ -298,7 +298,11 @@ class DateTimeParser:
             self.vidx += 1
             offset = self.parse_digits(2) * 60
             self.skip(":")
-            offset += self.parse_digits(2)
+            minutes = self.parse_digits(2)
+            if minutes > 59:
+                raise ValueError
+
+            offset += minutes
             offset *= -1 if ctrl == "-" else 1
             return offset
 
